@@ -199,7 +199,7 @@ impl<'a> Ex<'a> {
     fn make_files(&mut self) -> Result<Option<Vec<Sample>>, HarnessError> {
         let samples = samples_for(&self.c.file);
         for s in &samples {
-            self.dir.write(&s.file(), s.fasta().as_bytes());
+            self.dir.write(&s.file(), &s.bytes());
         }
         let r = self.run_seeded(self.build_args("orig", &samples), self.c.file.gen_seed >> 1, None)?;
         if !r.ok() {
@@ -388,7 +388,7 @@ impl Workload for DamageWorkload {
                 let mut others = samples.clone();
                 for s in others.iter_mut() {
                     s.name = format!("o{}", s.name);
-                    dir.write(&s.file(), s.fasta().as_bytes());
+                    dir.write(&s.file(), &s.bytes());
                 }
                 let r = ex.run(ex.build_args("good", &others))?;
                 if !r.ok() {
@@ -449,7 +449,7 @@ impl Workload for DamageWorkload {
                 let mut others = samples.clone();
                 for s in others.iter_mut() {
                     s.name = format!("o{}", s.name);
-                    dir.write(&s.file(), s.fasta().as_bytes());
+                    dir.write(&s.file(), &s.bytes());
                 }
                 let r = ex.run(ex.build_args("good", &others))?;
                 if !r.ok() {
